@@ -12,24 +12,47 @@ open Finset Matrix
 /-- `U` is upper triangular on the leading `D×D` block -/
 def UpperTri (D : ℕ) (U : ℕ → ℕ → ℝ) : Prop := ∀ i j, i < D → j < i → U i j = 0
 
+/-! ### arrays as functions -/
+
+theorem getA_set (x : Array ℝ) (i : ℕ) (v : ℝ) (hi : i < x.size) :
+    getA (x.setIfInBounds i v) = upd (getA x) i v := by
+  funext j
+  unfold getA upd
+  simp only [Array.getD_eq_getD_getElem?, Array.getElem?_setIfInBounds]
+  by_cases h : i = j
+  · subst h; simp [hi]
+  · have h' : ¬ j = i := fun e => h e.symm
+    simp [h, h']
+
+theorem backSub_size (D : ℕ) (U : ℕ → ℕ → ℝ) (z : ℕ → ℝ) (k : ℕ) : (backSub D U z k).size = D := by
+  induction k with
+  | zero => simp [backSub]
+  | succ k ih => rw [backSub]; simp only [Array.size_setIfInBounds]; exact ih
+
+theorem fwdSub_size (D : ℕ) (U : ℕ → ℕ → ℝ) (b : ℕ → ℝ) (k : ℕ) : (fwdSub D U b k).size = D := by
+  induction k with
+  | zero => simp [fwdSub]
+  | succ k ih => rw [fwdSub]; simp only [Array.size_setIfInBounds]; exact ih
+
 /-! ### back substitution -/
 
-theorem backSub_succ (D : ℕ) (U : ℕ → ℕ → ℝ) (z : ℕ → ℝ) (k : ℕ) :
-    backSub D U z (k + 1) = upd (backSub D U z k) (D - (k + 1))
-      ((z (D - (k + 1)) - ∑ j ∈ range D, (if D - (k + 1) < j then U (D - (k + 1)) j * backSub D U z k j else 0))
+theorem backSub_succ (D : ℕ) (U : ℕ → ℕ → ℝ) (z : ℕ → ℝ) (k : ℕ) (hk : k + 1 ≤ D) :
+    getA (backSub D U z (k + 1)) = upd (getA (backSub D U z k)) (D - (k + 1))
+      ((z (D - (k + 1)) - ∑ j ∈ range D, (if D - (k + 1) < j then U (D - (k + 1)) j * getA (backSub D U z k) j else 0))
         / U (D - (k + 1)) (D - (k + 1))) := by
   rw [backSub]; simp only [sumN_eq]
+  rw [getA_set _ _ _ (by rw [backSub_size]; omega)]
 
 theorem backSub_spec (D : ℕ) (U : ℕ → ℕ → ℝ) (z : ℕ → ℝ) (hdiag : ∀ i, i < D → U i i ≠ 0) :
     ∀ k, k ≤ D → ∀ i, D - k ≤ i → i < D →
-      U i i * backSub D U z k i + ∑ j ∈ range D, (if i < j then U i j * backSub D U z k j else 0) = z i := by
+      U i i * getA (backSub D U z k) i + ∑ j ∈ range D, (if i < j then U i j * getA (backSub D U z k) j else 0) = z i := by
   intro k
   induction k with
   | zero => intro _ i h1 h2; omega
   | succ k ih =>
     intro hk i h1 h2
-    rw [backSub_succ]
-    set x := backSub D U z k with hx
+    rw [backSub_succ D U z k hk]
+    set x := getA (backSub D U z k) with hx
     set i0 := D - (k + 1) with hi0
     have hsum : ∀ i', i0 ≤ i' → ∑ j ∈ range D, (if i' < j then U i' j * upd x i0
           ((z i0 - ∑ j ∈ range D, (if i0 < j then U i0 j * x j else 0)) / U i0 i0) j else 0)
@@ -50,8 +73,9 @@ theorem solveUpper_spec (D : ℕ) (U : ℕ → ℕ → ℝ) (z : ℕ → ℝ) (h
   have h := backSub_spec D U z hdiag D (le_refl D) i (by omega) hi
   unfold solveUpper
   rw [← h]
-  have : ∀ j ∈ range D, U i j * backSub D U z D j
-      = (if j = i then U i i * backSub D U z D i else 0) + (if i < j then U i j * backSub D U z D j else 0) := by
+  have : ∀ j ∈ range D, U i j * getA (backSub D U z D) j
+      = (if j = i then U i i * getA (backSub D U z D) i else 0)
+        + (if i < j then U i j * getA (backSub D U z D) j else 0) := by
     intro j _
     by_cases h1 : j = i
     · subst h1; simp
@@ -63,19 +87,22 @@ theorem solveUpper_spec (D : ℕ) (U : ℕ → ℕ → ℝ) (z : ℕ → ℝ) (h
 
 /-! ### forward substitution with `Uᵀ` -/
 
-theorem fwdSub_succ (U : ℕ → ℕ → ℝ) (b : ℕ → ℝ) (k : ℕ) :
-    fwdSub U b (k + 1) = upd (fwdSub U b k) k ((b k - ∑ j ∈ range k, U j k * fwdSub U b k j) / U k k) := by
+theorem fwdSub_succ (D : ℕ) (U : ℕ → ℕ → ℝ) (b : ℕ → ℝ) (k : ℕ) (hk : k + 1 ≤ D) :
+    getA (fwdSub D U b (k + 1)) = upd (getA (fwdSub D U b k)) k
+      ((b k - ∑ j ∈ range k, U j k * getA (fwdSub D U b k) j) / U k k) := by
   rw [fwdSub]; simp only [sumN_eq]
+  rw [getA_set _ _ _ (by rw [fwdSub_size]; omega)]
 
 theorem fwdSub_spec (D : ℕ) (U : ℕ → ℕ → ℝ) (b : ℕ → ℝ) (hdiag : ∀ i, i < D → U i i ≠ 0) :
-    ∀ k, k ≤ D → ∀ i, i < k → U i i * fwdSub U b k i + ∑ j ∈ range i, U j i * fwdSub U b k j = b i := by
+    ∀ k, k ≤ D → ∀ i, i < k →
+      U i i * getA (fwdSub D U b k) i + ∑ j ∈ range i, U j i * getA (fwdSub D U b k) j = b i := by
   intro k
   induction k with
   | zero => intro _ i h; omega
   | succ k ih =>
     intro hk i hi
-    rw [fwdSub_succ]
-    set w := fwdSub U b k with hw
+    rw [fwdSub_succ D U b k hk]
+    set w := getA (fwdSub D U b k) with hw
     have hsum : ∑ j ∈ range i, U j i * upd w k ((b k - ∑ j ∈ range k, U j k * w j) / U k k) j
         = ∑ j ∈ range i, U j i * w j := by
       apply sum_congr rfl; intro j hj
@@ -91,9 +118,9 @@ theorem solveLowerT_spec (D : ℕ) (U : ℕ → ℕ → ℝ) (b : ℕ → ℝ) (
   have h := fwdSub_spec D U b hdiag D (le_refl D) i hi
   unfold solveLowerT
   rw [← h]
-  -- split `range D` at `i`: below (kept), at `i` (diagonal), above (zero by triangularity)
-  have hsplit : ∑ j ∈ range D, U j i * fwdSub U b D j
-      = ∑ j ∈ range D, ((if j = i then U i i * fwdSub U b D i else 0) + (if j < i then U j i * fwdSub U b D j else 0)) := by
+  have hsplit : ∑ j ∈ range D, U j i * getA (fwdSub D U b D) j
+      = ∑ j ∈ range D, ((if j = i then U i i * getA (fwdSub D U b D) i else 0)
+          + (if j < i then U j i * getA (fwdSub D U b D) j else 0)) := by
     apply sum_congr rfl; intro j hj
     by_cases h1 : j = i
     · subst h1; simp
